@@ -33,6 +33,10 @@ CHECKS = {
             "normalisation shift, decimal unit boundaries) agrees with math/big including overflow/underflow/div-by-zero "
             "reporting; every text form of every value parses back; invalid texts rejected. Exhaustive over the stated set.",
             "math/big is the reference; values outside the boundary set are not covered.", "3/C15"),
+    "C18": ("E1", "model_checking",
+            "exhaustive enumeration of v2 transaction sets over every accumulator shape plus explicit-state exploration; every block round-tripped through the real multiproof/outline codecs",
+            "For every accumulator size up to N and every subset of <=3 live leaves (all subsets for <=10) spread over 1-3 transactions (+ephemeral chains), and for every accepted block of a union-alphabet exploration (storage-proof chain-index elements, ephemeral parents, duplicate leaves), V2TransactionsMultiproof / V2BlockData / V2Block encode->decode restores every proof bit-for-bit with unchanged ID, commitment and validity; for every block with <=4 transactions every omitted subset x every permutation of every candidate sub-pool completes to exactly the original block or reports exactly the missing hashes; outline codec round trip.",
+            "Outline codec reached through an add-only export hook (overlay/files/gateway/export_outline_verif.go); bounds as reported.", "3/C18"),
 }
 
 NOT_YET = {}
